@@ -555,7 +555,12 @@ func GenCase(prop string, seed uint64, thorough bool) *Case {
 		}
 	case "C08":
 		if r.p(0.25) {
-			return genConcFault(seed, g)
+			return genConcFault(prop, seed, g)
+		}
+	case "C11":
+		if r.p(0.15) {
+			// a commit whose manifest write fails and is retried, racing Close
+			return genConcFault(prop, seed, g)
 		}
 	case "C09":
 		if r.p(0.4) {
